@@ -208,8 +208,15 @@ func (d *c15Dag) addLeaf(r *rand.Rand, allowIdentity bool) int {
 	switch k := r.Intn(20); {
 	case k < 11:
 		sz := []int{0, 1, 5, 40, 90, 200, 300}[r.Intn(7)]
-		if r.Intn(40) == 0 {
+		switch r.Intn(30) {
+		case 0:
 			sz = 16350 + r.Intn(60) // section length varint of 3 bytes
+		case 1:
+			// section body (36..38-byte CID + data) in the windows just below and at a varint-width
+			// boundary: 16256..16390 (2→3 bytes) — an off-by-one in a length computation hides here
+			sz = 16256 - 38 + r.Intn(16390-16256+38)
+		case 2:
+			sz = 127 - 38 + r.Intn(6) // 1→2 byte boundary
 		}
 		return d.add(r, 0x55, &c15Val{K: 'b', B: gen.Bytes(r, sz)}, 0, false)
 	case k < 15 && allowIdentity:
